@@ -92,12 +92,115 @@ let do_snv h =
   | Exn c -> Printf.printf "R %s exn=%s\n" id (exn_name c)
   | Crash _ -> Printf.printf "R %s CRASH\n" id
 
+(* ---------------------------------------------------------------- sessions *)
+let base_checker : checker = {
+  k_ecdsa = (fun _ _ _ _ -> false);
+  k_schnorr = (fun _ _ _ _ -> (false, z_of_int (-1)));
+  k_locktime = (fun _ -> false);
+  k_sequence = (fun _ -> false) }
+let the_hashes : hashes = { h_sha256 = sha256; h_ripemd160 = ripemd160; h_sha1 = sha1 }
+let no_tweak _ _ _ _ = false
+
+let cond_str (c : condstack) =
+  let n = int_of_z c.cs_size in
+  string_of_int n ^ ":" ^ String.concat "" (List.init n (fun i -> if cs_at c (z_of_int i) then "1" else "0"))
+
+let status_exn (st : status) = match st with SExn c -> exn_name c | _ -> "-"
+
+let dump_env id k ret exn (v : ienv) =
+  let e = v.i_e in
+  let slen = List.length e.e_script in
+  let pc = slen - List.length v.i_pc in
+  let cb = match e.e_cb with Some b -> string_of_int (slen - List.length b) | None -> "dangling" in
+  let wl = if e.e_ed.ed_weight_init then string_of_z e.e_ed.ed_weight_left else "-1" in
+  let tce = match v.i_tce with None -> "-" | Some t -> string_of_z t.t_i ^ ":" ^ hex t.t_k in
+  Printf.printf "R %s #%d ret=%d st=%s alt=%s cond=%s pc=%d cb=%s ops=%s pos=%s seq=%s done=%d err=%s exn=%s cs=%s wl=%s scr=%s p2sh=%d succ=%s tce=%s hist=%d\n"
+    id k ret (hexlist (List.rev e.e_stack)) (hexlist (List.rev e.e_alt)) (cond_str e.e_cond) pc cb
+    (string_of_z e.e_ops) (string_of_z e.e_pos) (string_of_z v.i_seq) (if v.i_done then 1 else 0)
+    (string_of_z e.e_err) exn (string_of_z e.e_ed.ed_codesep_pos) wl (hexitem e.e_script)
+    (if v.i_p2sh then 1 else 0) (hexitem v.i_succ) tce (List.length v.i_hist)
+
+let run_cmds id (c : cfg) (v0 : ienv) (cmds : string) =
+  let v = ref v0 in
+  let k = ref 0 in
+  (try
+    List.iter (fun cmd ->
+      incr k;
+      if cmd = "s" then begin
+        let (v1, r) = inst_step low_s_strict no_tweak sha256 c !v in
+        v := v1;
+        match r with
+        | StepRefused -> Printf.printf "R %s #%d atend\n" id !k
+        | StepOk -> dump_env id !k 1 "-" v1
+        | StepFail -> dump_env id !k 0 "-" v1
+        | StepExn x -> dump_env id !k 0 (exn_name x) v1
+        | StepCrash x -> Printf.printf "R %s #%d CRASH why=%s\n" id !k (string_of_z x); raise Exit
+      end else if cmd = "r" then begin
+        if at_start !v then Printf.printf "R %s #%d atstart\n" id !k
+        else match dbg_rewind !v with
+          | None -> dump_env id !k 0 "-" !v
+          | Some v1 -> v := v1; dump_env id !k 1 "-" v1
+      end else if cmd = "c" then begin
+        let (v1, st) = dbg_continue low_s_strict no_tweak sha256 (continue_fuel !v) c !v in
+        v := v1;
+        match st with
+        | SOk -> dump_env id !k 1 "-" v1
+        | SErr -> dump_env id !k 0 "-" v1
+        | SExn x -> Printf.printf "R %s #%d uncaught=%s\n" id !k (exn_name x); raise Exit
+        | SCrash x -> Printf.printf "R %s #%d CRASH why=%s\n" id !k (string_of_z x); raise Exit
+      end else if String.length cmd > 2 && String.sub cmd 0 2 = "e:" then begin
+        let toks = List.map (fun t -> ascii (unhexstr t)) (split '+' (String.sub cmd 2 (String.length cmd - 2))) in
+        match exec_compile toks [] with
+        | None -> dump_env id !k 0 "-" !v
+        | Some scr ->
+          let (v1, st) = inst_eval low_s_strict c !v scr in
+          v := v1;
+          match st with
+          | SOk -> dump_env id !k 1 "-" v1
+          | SErr -> dump_env id !k 0 "-" v1
+          | SExn x -> Printf.printf "R %s #%d uncaught=%s\n" id !k (exn_name x); raise Exit
+          | SCrash x -> Printf.printf "R %s #%d CRASH why=%s\n" id !k (string_of_z x); raise Exit
+      end else Printf.printf "R %s #%d badcmd\n" id !k)
+      (split ',' cmds)
+  with Exit -> ())
+
+let do_script h =
+  let id = get h "id" "" in
+  let scr = unhex (get h "scr" "") in
+  if not (has_valid_ops scr) then Printf.printf "R %s refused\n" id
+  else begin
+    let st = List.rev (unhexlist (get h "st" "")) in
+    let c = { c_flags = z_of_string (get h "flags" "0"); c_sigver = z_of_int (geti h "sv" 0);
+              c_allow_disabled = (geti h "z" 0 <> 0); c_pv_map = []; c_pv_keys = [];
+              c_chk = base_checker; c_hash = the_hashes } in
+    let ed = match Hashtbl.find_opt h "wl" with
+      | None -> init_execdata
+      | Some w -> { init_execdata with ed_weight_left = z_of_string w; ed_weight_init = true } in
+    let v = setup_env c scr st (unhex (get h "succ" "")) ed None in
+    if not v.i_operational then Printf.printf "R %s setupfail err=%s\n" id (string_of_z v.i_e.e_err)
+    else begin
+      dump_env id 0 1 "-" v;
+      run_cmds id c v (get h "cmds" "")
+    end
+  end
+
+(* ---------------------------------------------------------------- btcc *)
+let no_exec _ _ = None
+let do_btcc h =
+  let id = get h "id" "" in
+  let toks = List.map (fun t -> ascii (unhexstr t)) (split ',' (get h "toks" "")) in
+  match btcc no_exec toks with
+  | POk b -> Printf.printf "R %s out=%s\n" id (hexitem b)
+  | PExit1 -> Printf.printf "R %s exit1\n" id
+
 let run_case (l : string) =
   let (kind, h) = parse_line l in
   match kind with
   | "sn" -> do_sn h
   | "sne" -> do_sne h
   | "snv" -> do_snv h
+  | "script" -> do_script h
+  | "btcc" -> do_btcc h
   | _ -> Printf.printf "R %s unknownkind\n" (get h "id" "")
 
 let () =
